@@ -58,23 +58,20 @@ func BlockMix(b []byte, r int) []byte {
 	if len(b) != 128*r {
 		panic("scryptref: BlockMix input length")
 	}
-	var x [64]byte
+	var x, t [64]byte
 	copy(x[:], b[(2*r-1)*64:])
-	y := make([][64]byte, 2*r)
+	out := make([]byte, 128*r)
 	for i := 0; i < 2*r; i++ {
-		var t [64]byte
 		for k := range t {
 			t[k] = x[k] ^ b[i*64+k]
 		}
 		x = Salsa208(t)
-		y[i] = x
-	}
-	out := make([]byte, 0, 128*r)
-	for i := 0; i < 2*r; i += 2 {
-		out = append(out, y[i][:]...)
-	}
-	for i := 1; i < 2*r; i += 2 {
-		out = append(out, y[i][:]...)
+		// Y[i] goes to its place in B': even i to block i/2, odd i to block r + (i-1)/2
+		place := i / 2
+		if i%2 == 1 {
+			place = r + (i-1)/2
+		}
+		copy(out[place*64:], x[:])
 	}
 	return out
 }
